@@ -629,7 +629,9 @@ func (e *c11env) revocation() {
 		okRange := false
 		for cur := ast.Node(cs.Call); cur != nil; cur = p.Parent(ha.File, cur) {
 			if rs, ok := cur.(*ast.RangeStmt); ok {
-				if t := ff.term(rs.X); t != nil {
+				if xc, isCall := unparen(rs.X).(*ast.CallExpr); isCall && fnIs(calleeOf(&CallSite{Call: xc, In: ha}), "rtpconn", "", "getUpConns") {
+					okRange = true // for ... := range getUpConns(c)
+				} else if t := ff.term(rs.X); t != nil {
 					stR, _ := ff.At(rs.X)
 					for v := range stR.variants(t) {
 						if strings.Contains(v, "res0@") {
@@ -806,7 +808,7 @@ func (e *c11env) whip() {
 		c.Check(okAdd, "R11.4", "endpoint: NewConnection after successful AddClient", newc.Pos(),
 			"dominated by AddClient(...) returning a nil error", "NewConnection is reachable without a successful AddClient")
 		ct := ff.term(recvExpr(newc))
-		okPres := false
+		okPres, direct := false, false
 		if st != nil && ct != nil {
 			for _, f := range st.Facts() {
 				if f.Pos && f.Op == "true" && f.A.K == 'k' && strings.HasSuffix(f.A.Name, "canPresent") && len(f.A.Args) == 1 {
@@ -814,6 +816,10 @@ func (e *c11env) whip() {
 					if a.K == 'k' && strings.HasSuffix(a.Name, ".Permissions") && len(a.Args) == 1 && st.EqualUnder(a.Args[0], ct) {
 						okPres = true
 					}
+				}
+				// or the test written out: slices.Contains(c.Permissions(), "present")
+				if a, is := isContains(f, "present"); is && f.Pos && a.K == 'k' && strings.HasSuffix(a.Name, ".Permissions") && len(a.Args) == 1 && st.EqualUnder(a.Args[0], ct) {
+					okPres, direct = true, true
 				}
 			}
 		}
@@ -839,6 +845,8 @@ func (e *c11env) whip() {
 				return true
 			})
 			c.Check(okCP, "R11.4", "canPresent tests 'present'", cp.Pos(), "compares against the constant \"present\"", "canPresent no longer tests the constant \"present\"")
+		} else if direct {
+			c.OK("R11.4", "canPresent tests 'present'", newc.Pos(), "the endpoint tests slices.Contains(c.Permissions(), \"present\") itself")
 		}
 		// failure edges reach DelClient: every return after AddClient success
 		// other than the final success has called DelClient(c)
